@@ -11,7 +11,7 @@ RELEASE_PROFILE = True
 
 
 MANIFEST = {
-    "text": "Static decision of the mechanisms that make token spans tile the input and tokenisation total: who-may-write of raw.start (only next(), from raw.end) and of the input buffer (never after construction); every write of raw.end is a bounded form (+1 under a successful bounds-checked read, a subtraction, a copy of an earlier position, one named re-advance); accessor/field agreement of raw() and buffered(); the panic-site audit restricted to the tokenizer; the recursion audit; and loop progress (every cycle passes through read_byte and is left once the end-of-input error is set). 'At most one token per byte' and accessor success on valid UTF-8 are value-level and not decided.",
+    "text": "Static decision of the mechanisms that make token spans tile the input and tokenisation total: who-may-write of raw.start (only next(), from raw.end) and of the input buffer (never after construction); every write of raw.end is a bounded form (+1 under a successful bounds-checked read, a subtraction, a copy of an earlier position, one named re-advance); accessor/field agreement of raw() and buffered(); the panic-site audit restricted to the tokenizer; the recursion audit; and loop progress (every cycle passes through read_byte and is left once the end-of-input error is set). 'At most one token per byte' and accessor success on valid UTF-8 are value-level and not decided. Also: next() cannot fail on arbitrary bytes (R16.8) and readers called from a loop that gives a byte back look at the next byte on every non-error path.",
     "technique": "static analysis: who-may-write / bounded-write classification of field writes, guard dominance, CFG cycle analysis over MIR",
 }
 
